@@ -354,6 +354,42 @@ Proof.
   - rewrite sort_frag. exact He.
 Qed.
 
+(* -- sort_by -- *)
+Lemma sort_by_frag cm : forall t, tbl_is_map t = true -> forall q k0 kp hp,
+  frag_at q k0 kp hp (ITable (tbl_sort_by cm t)) = frag_at q k0 kp hp (ITable t).
+Proof.
+  pose (Pt := fun t => tbl_is_map t = true -> forall q k0 kp hp,
+                  frag_at q k0 kp hp (ITable (tbl_sort_by cm t)) = frag_at q k0 kp hp (ITable t)).
+  pose (Pv := fun _ : value => True).
+  pose (Pi := fun i => match i with ITable t => Pt t | _ => True end).
+  apply (tbl_ind4 Pv Pi Pt); unfold Pv, Pi; try (intros; exact I); try (intros; assumption).
+  intros items d im dt p sp IH Hm q k0 kp hp. rewrite tbl_is_map_eq in Hm. apply andb_true_iff in Hm as [Hd Hc].
+  destruct q as [|[k|n] q]; [reflexivity| |reflexivity].
+  simpl tbl_sort_by. simpl frag_at.
+  rewrite kv_get_sort_by by (rewrite kkeys_b_map; exact Hd). rewrite kv_get_map.
+  destruct (kv_get items k) as [[k1 i]|] eqn:G; [|reflexivity].
+  rewrite Forall_forall in IH. specialize (IH _ (kv_get_In _ _ _ _ G)). simpl in IH.
+  rewrite forallb_forall in Hc. specialize (Hc _ (kv_get_In _ _ _ _ G)). cbn [snd] in Hc.
+  assert (E : forall kp' hp',
+             frag_at q (Some k1) kp' hp'
+                     match i with
+                     | ITable (Tbl _ _ _ true _ _ as sub) => ITable (tbl_sort_by cm sub)
+                     | _ => i
+                     end = frag_at q (Some k1) kp' hp' i).
+  { intros kp' hp'.
+    destruct i as [|v|[items0 d0 im0 dt0 p0 sp0]|]; try reflexivity.
+    destruct dt0; [|reflexivity]. apply IH. exact Hc. }
+  destruct k0 as [k'|]; [apply E|]. destruct dt; [reflexivity|apply E].
+Qed.
+
+Lemma op_sort_by_keepsL cm : keepsL (op_sort_by cm) nonnil any_path ident.
+Proof.
+  intros i i' H q k0 kp hp e He Hu. unfold ident.
+  destruct i as [|[| |items pre im dt d sp]|t|]; unfold op_sort_by in H; try discriminate.
+  - exfalso. eapply (frag_value_only q k0 kp hp _ e nonnil any_path); eauto.
+  - destruct (tbl_is_map t) eqn:Hm; [|discriminate]. injection H as <-. rewrite (sort_by_frag cm t Hm). exact He.
+Qed.
+
 (* -- fmt -- *)
 Lemma kv_get_decorate_tbl m k :
   kv_get (decorate_items m) k
@@ -439,7 +475,7 @@ Definition op_regionL (o : op) : path * (path -> bool) * (path -> bool) * (path 
   | OArrPush p _ | OArrInsert p _ _ | OArrReplace p _ _ | OArrRemove p _ => (p, no_path, any_path, ident)
   | OAotPush p => (p, isidx, isidx, ident)
   | OAotRemove p i => (p, oidx i, oidx i, shift_down i)
-  | OSort p => (p, nonnil, any_path, ident)
+  | OSort p | OSortBy p _ => (p, nonnil, any_path, ident)
   | OFmt p => (p, deeper, any_path, ident)
   | OISet ks _ => ([], off_keys ks, not_below ks, ident)
   end.
@@ -463,7 +499,7 @@ Proof.
   { intros U UH R Hk Er. rewrite Er in *.
     apply (at_path_keepsL P f U UH R Hk _ _ H p None [] [] e He).
     destruct (is_head e); exact Hu. }
-  destruct o as [q k v|q k|q k|q k|q v|q i v|q i v|q i|q|q i|q|q|q k|q k|q k|ks x];
+  destruct o as [q k v|q k|q k|q k|q v|q i v|q i v|q i|q|q i|q|q|q k|q k|q k|ks x|q cm];
     simpl in EO; injection EO as <- <-.
   - exact (K _ _ _ (op_insert_keepsL k v) eq_refl).
   - exact (K _ _ _ (op_insert_item_keepsL k _) eq_refl).
@@ -483,6 +519,7 @@ Proof.
   - apply (K (off_keys ks) (not_below ks) ident); [|reflexivity].
     intros i i' Hi q0 k0 kp hp e0 He0 Hu0. unfold ident.
     destruct ks as [|k ks]; [discriminate|]. exact (iset_keepsL _ _ _ _ Hi q0 k0 kp hp e0 He0 Hu0).
+  - exact (K _ _ _ (op_sort_by_keepsL cm) eq_refl).
 Qed.
 
 (* along a history *)
